@@ -35,7 +35,8 @@ SIZES_THOROUGH = SIZES_QUICK + [2 * MiB, 2 * MiB + 1, 3 * MiB - 1, 2 * MiB - 1]
 
 
 def decorate(rng, p):
-    return pick(rng, [p, p, "./" + p, p.replace("/", "//", 1), "x/../" + p, "./a/./../" + p])
+    return pick(rng, [p, p, "./" + p, p.replace("/", "//", 1), "x/../" + p, "./a/./../" + p,
+                      "x/y/../../" + p, "a/b/c/../../../" + p, "x/../y/../" + p, "x//y/.././../" + p, p.replace("/", "/./", 1)])
 
 
 def gen_ti_case(rng, tier):
@@ -60,6 +61,8 @@ def gen_ti_case(rng, tier):
                 o["value"] = hexstr(rng, 32)
         elif r < 0.3:
             o["value"] = hexstr(rng, 64)                # explicit value
+            if rng.random() < 0.4:
+                o["also_root"] = True                   # ...handed over TOGETHER with the tree root
         elif r < 0.55:
             kind = pick(rng, ["eio_on_open", "eacces_on_open", "eio_at_offset", "eio_at_offset"])
             o["fault"] = {"kind": kind, "offset": pick(rng, [0, 1, MiB - 1, MiB, MiB + 1, 2 * MiB, rng.randint(0, 3 * MiB)])}
